@@ -231,8 +231,9 @@ def check_endianness(out, facts):
                 out.fail('R01.2', '%s calls slice::reverse [%s]' % (fkey(f), cfg), 'byte order of a buffer is reversed', node.get('loc', f['loc']))
     out.ob('R01.2', 'little-endian conversions present [%s]' % cfg, n_le >= 20, 'only %d to_le_bytes/from_le_bytes call sites (10 + 10 expected)' % n_le, '-')
     # bulk paths: transmute only under cfg!(..) literal or for one-byte elements
-    for path, tag in (('codec::encode_slice_no_len', 'enc'), ('codec::decode_vec_with_len', 'dec')):
-        f = facts.by_path.get(path)
+    for role, tag in (('slice_no_len', 'enc'), ('with_len', 'dec')):
+        f = roles(facts).get(role)
+        path = 'helper:' + role
         if not f:
             out.fail('R01.2', path + ' [%s]' % cfg, 'bulk function not found (anchor missing)', '-')
             continue
@@ -270,7 +271,7 @@ def check_endianness(out, facts):
                 whole = tmv and sym.vstr(tmv[3][0]) in ('index(slice, RangeFull::RangeFull{})', 'slice')
                 out.ob('R07.4' if False else 'R01.3', '%s arm %s covers the whole slice [%s]' % (path, var, cfg), bool(whole), 'bulk write does not cover the whole slice: %s' % (sym.vstr(tmv[3][0]) if tmv else None), f['loc'])
             else:
-                hs = [e for e in sym.walk(x) if e[0] == 'HELPER' and e[1] == 'read_vec_from_u8s']
+                hs = [e for e in sym.walk(x) if e[0] == 'HELPER' and e[1] == role_name(facts, 'bulk')]
                 out.ob('R01.3', '%s arm %s uses the bulk reader [%s]' % (path, var, cfg), len(hs) >= 1, 'arm does not call read_vec_from_u8s', f['loc'])
             if prim not in ('u8', 'i8'):
                 out.ob('R01.2', '%s arm %s guarded by cfg!(target_endian) [%s]' % (path, var, cfg), has_cfg,
@@ -330,7 +331,7 @@ def check_panics(out, facts, S):
                             okj = True
                     # on this path (which reached the expect) the Err arm was not taken, so expect cannot fire unless the
                     # helper has another Err exit
-                    hel = [x for x in sym.walk(term) if x[0] == 'HELPER' and x[1] == 'compact_encode_len_to']
+                    hel = [x for x in sym.walk(term) if shape._is_count_helper(x)]
                     errs = sum(1 for h in hel for y in sym.walk(h[2]) if y[0] in ('ERR', '?'))
                     okj = okj and errs == len(hel)
                     out.ob('R01.4', key, okj, 'expect on the count prefix can fire for a representable count: the helper rejects something other than len > u32::MAX', e[2])
